@@ -1,5 +1,271 @@
-From LibTw2 Require Import Base.Res Model.ServerBrowse.
+(* C18 — server-info parsing is total; merging parts is order-free and idempotent.
+   Only the property theorems (about Model/ServerBrowse.v), each closed by lemmas of
+   Proofs/ServerBrowse*.v, with the axioms they depend on printed.
+
+   Reading guide for the merge theorems (definitions in Proofs/ServerBrowseMerge.v):
+     parts            the PartialServerInfo values parsed from the datagrams of ONE info
+     same_info parts  same token and (multi-part) version; masks of different parts disjoint; a part
+                      with an empty mask has no client; the main parts agree on the header and the
+                      non-main parts agree on the header (64-player legacy: all parts agree)
+     o : list nat     an order = non-empty list of indices into parts, repetitions allowed
+     merged rep parts o   first part = initial state, the others merged in with
+                      PartialServerInfo::merge (rep = false: the code as it is; rep = true: with the
+                      repair `self.received |= other.received`); None if any merge returns Err
+     received_clients parts o   the clients of every part that occurs in o, each part once
+     has_repeat o     class K18: some part occurs twice in o *)
+From LibTw2 Require Import Base.Res Model.Varint Model.Packer Model.ServerBrowse
+  Proofs.VarintProofs Proofs.ServerBrowseTotal Proofs.ServerBrowseSort Proofs.ServerBrowseMerge
+  Proofs.ServerBrowseParse Proofs.ServerBrowseParts.
+From Coq Require Import ZArith List Sorting.Permutation Sorting.Sorted.
 Open Scope Z_scope.
-Example C18_nonvacuous : parse_response [] = Err tt.
-Proof. reflexivity. Qed.
+
+(* For every byte string (shorter than 2^31) every parser returns a value or nothing: no
+   panic site of the model is reachable and no loop runs out of fuel. *)
+Theorem C18_total : forall bs, datagram_ok bs = true ->
+  ok_or_err (parse_response bs)
+  /\ (forall k, ok_or_err (parse_info k bs))
+  /\ (forall r k payload, parse_response bs = Ok r -> response_info r = Some (k, payload) ->
+        ok_or_err (parse_info k payload))
+  /\ ok_or_err (parse_list5 bs) /\ ok_or_err (parse_list6 bs)
+  /\ ok_or_err (parse_count bs) /\ ok_or_err (parse_token7 bs)
+  /\ (forall a b, ok_or_err (snd (merge a b))).
+Proof.
+  intros bs H. split; [apply parse_response_total|].
+  split; [intros k; apply parse_info_total, H|].
+  split; [intros r k payload; apply response_info_total, H|].
+  split; [destruct (parse_list5_ok bs) as [l ->]; exact I|].
+  split; [destruct (parse_list6_ok bs) as [l ->]; exact I|].
+  split; [apply parse_count_total|]. split; [apply parse_token7_total|].
+  intros a b. apply merge_total.
+Qed.
+
+(* The code as it is: two orders WITHOUT a repeated part that cover the same set of parts never
+   fail to merge and end with the same header, the same clients up to their order and the same
+   answer from get_info (which sorts). *)
+Theorem C18_merge_order_free : forall parts o1 o2, same_info parts = true ->
+  order_ok parts o1 = true -> order_ok parts o2 = true -> same_set o1 o2 = true ->
+  has_repeat o1 = false -> has_repeat o2 = false ->
+  exists s1 s2, merged false parts o1 = Some s1 /\ merged false parts o2 = Some s2
+    /\ hdr s1 = hdr s2 /\ Permutation (cl s1) (cl s2)
+    /\ info_of (get_info s1) = info_of (get_info s2).
+Proof.
+  intros parts o1 o2 Hs H1 H2 Hset Hr1 Hr2.
+  destruct (merge_order_free parts Hs false o1 o2 H1 H2 Hset (fun _ => conj Hr1 Hr2))
+    as (s1 & s2 & A & B & C & D & _ & E).
+  exists s1, s2. repeat split; assumption.
+Qed.
+
+(* The code as it is, orders without a repeated part: get_info is Some exactly when the parts
+   merged carry as many clients as the info announces (pm: any part of a 64-player legacy info,
+   the main part of an extended info), and the info handed out then has the announcing part's
+   header and lists exactly the received clients, each part's clients once, sorted; take_info
+   hands out the same info. *)
+Theorem C18_complete_iff : forall parts o m pm, same_info parts = true ->
+  order_ok parts o = true -> has_repeat o = false ->
+  In m o -> nth_error parts m = Some pm -> (ver pm = V6Ex -> is_main pm = true) ->
+  Z.of_nat (length (received_clients parts o)) <= i32_max ->
+  exists st, merged false parts o = Some st /\
+    match get_info st with
+    | Ok (i, st') =>
+      Z.of_nat (length (received_clients parts o)) = i_num_clients (p_info pm)
+      /\ i_clients i = sort_clients (received_clients parts o)
+      /\ Permutation (i_clients i) (received_clients parts o)
+      /\ set_clients i [] = hdr pm
+      /\ take_info st = Ok (i, {| p_info := default_info; p_received := u64_ones |})
+    | Err _ => Z.of_nat (length (received_clients parts o)) <> i_num_clients (p_info pm)
+    | _ => False
+    end.
+Proof.
+  intros parts o m pm Hs Ho Hr. exact (merge_complete_iff parts Hs false o m pm Ho (fun _ => Hr)).
+Qed.
+
+(* What "announced" means before the main part of an extended info has arrived (code as it is,
+   not a repair): the state then carries the default header of a `more` part, which announces 0
+   clients, so get_info is Some exactly when the `more` parts merged so far carry no client at all
+   (real servers never send such a part); with at least one client it stays None until the main
+   part arrives, and then C18_complete_iff applies. *)
+Theorem C18_complete_without_main : forall parts o m pm, same_info parts = true ->
+  order_ok parts o = true -> has_repeat o = false ->
+  In m o -> nth_error parts m = Some pm ->
+  (forall j pj, In j o -> nth_error parts j = Some pj -> is_main pj = false) ->
+  hdr pm = more_hdr (tok pm) ->
+  Z.of_nat (length (received_clients parts o)) <= i32_max ->
+  exists st, merged false parts o = Some st /\
+    (is_ok (get_info st) = true <-> received_clients parts o = []).
+Proof.
+  intros parts o m pm Hs Ho Hr Hm Hpm Hnomain Hh Hlen.
+  destruct (merge_complete_gen parts Hs false o m pm Ho (fun _ => Hr) Hm Hpm) as [st [Hmg Hg]].
+  { intros j pj Hj Hpj Hmain. rewrite (Hnomain j pj Hj Hpj) in Hmain. discriminate. }
+  { exact Hlen. }
+  exists st. split; [exact Hmg|].
+  assert (Hz : i_num_clients (p_info pm) = 0).
+  { change (i_num_clients (hdr pm) = 0). rewrite Hh. reflexivity. }
+  rewrite Hz in Hg.
+  destruct (get_info st) as [[i st']| | |]; cbn [is_ok]; try contradiction.
+  - destruct Hg as (Hn & _). split; [intros _|reflexivity].
+    destruct (received_clients parts o); [reflexivity|cbn [length] in Hn; lia].
+  - split; [discriminate|]. intros E. rewrite E in Hg. cbn [length] in Hg. contradiction Hg. reflexivity.
+Qed.
+
+(* the documented sort: a permutation of the input, sorted by derive(Ord), and canonical *)
+Theorem C18_sort : forall l l',
+  Permutation (sort_clients l) l /\ StronglySorted cle (sort_clients l)
+  /\ (Permutation l l' -> sort_clients l = sort_clients l').
+Proof.
+  intros l l'. split; [apply sort_clients_perm|]. split; [apply sort_clients_sorted|apply sort_clients_canonical].
+Qed.
+
+(* Whatever datagram the three partial parsers accept, the PartialServerInfo they hand to merge
+   meets the per-part conditions of same_info: a multi-part version; no client without a bit in the
+   mask; an extended main part has mask 1; a `more` part has the one bit of its packet number
+   1..63, is not a main part and has the default header with its token (so all `more` parts with
+   the same token agree on the header). *)
+Theorem C18_parsed_parts : forall k bs p, is_partial_kind k = true -> parse_info k bs = Ok p ->
+  is_multipart (ver p) = true /\ part_wf p = true
+  /\ match k with
+     | K664 => ver p = V664 /\ is_main p = false
+     | K6Ex => ver p = V6Ex /\ p_received p = 1 /\ is_main p = true
+     | K6ExMore => ver p = V6Ex /\ is_main p = false /\ hdr p = more_hdr (tok p)
+                   /\ exists n, 1 <= n < 64 /\ p_received p = Z.shiftl 1 n
+     | _ => True
+     end.
+Proof. exact parsed_part_wf. Qed.
+
+(* info_read_int_v5 is str::parse::<i32>: an optional sign, at least one ASCII digit, the decimal
+   value, None outside the i32 range (so "", "-", "+", "2147483648", "1x" are None, "-2147483648",
+   "+7", "-0", "007" are values); such a text is ASCII, so the from_utf8 check never rejects it. *)
+Theorem C18_parse_i32 : forall s,
+  parse_i32 s =
+  match s with
+  | [] => None
+  | c :: r =>
+    let '(neg, ds) := if c =? 45 then (true, r) else if c =? 43 then (false, r) else (false, s) in
+    match ds with
+    | [] => None
+    | _ => if forallb is_digit ds then
+             let v := if neg then - digits_value 0 ds else digits_value 0 ds in
+             if is_i32 v then Some v else None
+           else None
+    end
+  end.
+Proof. exact parse_i32_decimal. Qed.
+
+(* truncated_arraystring: a prefix of at most cap bytes cut at a character boundary, the whole
+   string if it fits; ArrayString::push_str never overflows *)
+Theorem C18_truncation : forall cap s,
+  exists k, truncated_arraystring cap s = Ok (firstn k s) /\ (k <= cap)%nat
+    /\ is_char_boundary s k = true /\ ((length s <= cap)%nat -> firstn k s = s).
+Proof. exact truncated_arraystring_spec. Qed.
+
+(* ---------- a concrete 3-part extended info, parsed by the model from its datagrams ---------- *)
+
+(* "7" "v" "n" "m" "1" "2" "g" "0" | 0/3 players 3/3 clients | "" | client "a" "" 0 0 player "" *)
+Definition ex_main : bytes :=
+  [55;0; 118;0; 110;0; 109;0; 49;0; 50;0; 103;0; 48;0; 48;0; 51;0; 51;0; 51;0; 0;
+   97;0; 0; 48;0; 48;0; 49;0; 0].
+(* "7" packet 1 "" | client "b" *)
+Definition ex_more1 : bytes := [55;0; 49;0; 0; 98;0; 0; 48;0; 48;0; 49;0; 0].
+(* "7" packet 2 "" | client "c" *)
+Definition ex_more2 : bytes := [55;0; 50;0; 0; 99;0; 0; 48;0; 48;0; 49;0; 0].
+
+Definition ex_parts : list psi :=
+  match parse_info K6Ex ex_main, parse_info K6ExMore ex_more1, parse_info K6ExMore ex_more2 with
+  | Ok a, Ok b, Ok c => [a; b; c]
+  | _, _, _ => []
+  end.
+
+Definition summary (r : option psi) : option (nat * Z * bool) :=
+  match r with
+  | Some s => Some (length (cl s), p_received s, is_ok (get_info s))
+  | None => None
+  end.
+
+Definition recv_of (r : res unit psi) : option Z :=
+  match r with Ok p => Some (p_received p) | _ => None end.
+
+(* K18 (known finding): with the code as it is a repeated part is not recognised. Order 0,1,2 is
+   complete (3 clients); order 0,1,1,2 covers the same parts but lists client "b" twice and is
+   not complete — and `received` is still only the mask of the main part. *)
+Theorem K18_refuted : exists parts o1 o2,
+  same_info parts = true /\ order_ok parts o1 = true /\ order_ok parts o2 = true
+  /\ same_set o1 o2 = true /\ has_repeat o1 = false /\ has_repeat o2 = true
+  /\ exists s1 s2, merged false parts o1 = Some s1 /\ merged false parts o2 = Some s2
+     /\ is_ok (get_info s1) = true /\ get_info s2 = Err tt
+     /\ length (cl s2) = S (length (cl s1)) /\ p_received s2 = 1.
+Proof.
+  exists ex_parts, [0; 1; 2]%nat, [0; 1; 1; 2]%nat.
+  repeat (split; [vm_compute; reflexivity|]).
+  eexists. eexists. split; [vm_compute; reflexivity|]. split; [vm_compute; reflexivity|].
+  repeat split; vm_compute; reflexivity.
+Qed.
+
+(* ---------- what the one-line repair `self.received |= other.received` establishes ---------- *)
+
+(* any two orders, with any repetition, that cover the same set of parts *)
+Theorem C18_repaired_merge_order_free : forall parts o1 o2, same_info parts = true ->
+  order_ok parts o1 = true -> order_ok parts o2 = true -> same_set o1 o2 = true ->
+  exists s1 s2, merged true parts o1 = Some s1 /\ merged true parts o2 = Some s2
+    /\ hdr s1 = hdr s2 /\ Permutation (cl s1) (cl s2) /\ p_received s1 = p_received s2
+    /\ info_of (get_info s1) = info_of (get_info s2).
+Proof.
+  intros parts o1 o2 Hs H1 H2 Hset.
+  destruct (merge_order_free parts Hs true o1 o2 H1 H2 Hset) as (s1 & s2 & A & B & C & D & E & F);
+    [intros X; discriminate X|].
+  specialize (E eq_refl). exists s1, s2. repeat split; assumption.
+Qed.
+
+Theorem C18_repaired_complete_iff : forall parts o m pm, same_info parts = true ->
+  order_ok parts o = true ->
+  In m o -> nth_error parts m = Some pm -> (ver pm = V6Ex -> is_main pm = true) ->
+  Z.of_nat (length (received_clients parts o)) <= i32_max ->
+  exists st, merged true parts o = Some st /\
+    match get_info st with
+    | Ok (i, st') =>
+      Z.of_nat (length (received_clients parts o)) = i_num_clients (p_info pm)
+      /\ i_clients i = sort_clients (received_clients parts o)
+      /\ Permutation (i_clients i) (received_clients parts o)
+      /\ set_clients i [] = hdr pm
+      /\ take_info st = Ok (i, {| p_info := default_info; p_received := u64_ones |})
+    | Err _ => Z.of_nat (length (received_clients parts o)) <> i_num_clients (p_info pm)
+    | _ => False
+    end.
+Proof.
+  intros parts o m pm Hs Ho. apply (merge_complete_iff parts Hs true o m pm Ho). intros X; discriminate X.
+Qed.
+
+(* non-vacuity: the three datagrams parse, the family meets same_info, orders with and without a
+   repeated part meet the hypotheses, and the theorems' conclusions are the concrete values *)
+Example C18_nonvacuous :
+  datagram_ok ex_main = true /\ length ex_parts = 3%nat /\ same_info ex_parts = true
+  /\ map is_main ex_parts = [true; false; false] /\ map p_received ex_parts = [1; 2; 4]
+  /\ order_ok ex_parts [2; 0; 1]%nat = true /\ same_set [0; 1; 2]%nat [2; 0; 1]%nat = true
+  /\ has_repeat [2; 0; 1]%nat = false
+  /\ summary (merged false ex_parts [0; 1; 2]%nat) = Some (3%nat, 1, true)
+  /\ summary (merged false ex_parts [2; 0; 1]%nat) = Some (3%nat, 1, true)
+  /\ summary (merged false ex_parts [2; 1]%nat) = Some (2%nat, 2, false)
+  (* a repeated part: recognised only with the repair *)
+  /\ has_repeat [1; 2; 2; 0; 1; 0]%nat = true /\ same_set [0; 1; 2]%nat [1; 2; 2; 0; 1; 0]%nat = true
+  /\ summary (merged true ex_parts [1; 2; 2; 0; 1; 0]%nat) = Some (3%nat, 7, true)
+  /\ summary (merged true ex_parts [0; 1; 2]%nat) = Some (3%nat, 7, true)
+  /\ summary (merged false ex_parts [1; 2; 2; 0; 1; 0]%nat) = Some (4%nat, 1, false)
+  (* the repaired bounds of defect #19: packet number 64 is refused, not shifted *)
+  /\ parse_info K6ExMore [55;0; 54;52;0; 0] = Err tt
+  /\ recv_of (parse_info K6ExMore [55;0; 54;51;0; 0]) = Some 9223372036854775808
+  (* str::parse::<i32> and the truncation at a character boundary ("aé" into one byte of room) *)
+  /\ map parse_i32 [[45;50;49;52;55;52;56;51;54;52;56]; [50;49;52;55;52;56;51;54;52;56]; [43;55]; [45]; []; [48;48;55]; [49;120]]
+     = [Some (-2147483648); None; Some 7; None; None; Some 7; None]
+  /\ truncated_arraystring 2 [97; 195; 169] = Ok [97].
+Proof. vm_compute. repeat split; reflexivity. Qed.
+
+Print Assumptions C18_total.
+Print Assumptions C18_merge_order_free.
+Print Assumptions C18_complete_iff.
+Print Assumptions C18_complete_without_main.
+Print Assumptions C18_sort.
+Print Assumptions C18_parsed_parts.
+Print Assumptions C18_parse_i32.
+Print Assumptions C18_truncation.
+Print Assumptions K18_refuted.
+Print Assumptions C18_repaired_merge_order_free.
+Print Assumptions C18_repaired_complete_iff.
 Print Assumptions C18_nonvacuous.
